@@ -189,7 +189,8 @@ U8 = Universe(
             "import c\ndef f() -> int:\n    return c.k +\n",  # syntax error
             "import c\ndef f() -> str:\n    return c.k\n",
         ],
-        "tmp/c.py": ["k: int = 0\n", "k: str = ''\n", "k: int = (\n"],
+        # absent: a module that is missing, then appears WITH a syntax error, then is fixed
+        "tmp/c.py": ["k: int = 0\n", "k: str = ''\n", "k: int = (\n", None],
     },
     sources=[_m("a")],
 )
